@@ -217,6 +217,15 @@ func typed(x any) any {
 	return x
 }
 
+func isIdent(k string) bool {
+	for _, c := range k {
+		if !(c == '_' || (c >= '0' && c <= '9') || (c >= 'a' && c <= 'z') || (c >= 'A' && c <= 'Z')) {
+			return false
+		}
+	}
+	return true
+}
+
 // NewPurityCase runs one generated case the way C19 needs it and returns the case (for the model
 // comparison) plus the failures of the model-free purity oracles.
 func NewPurityCase(g *Gen, id int) (*Case, []string, string) {
@@ -239,6 +248,33 @@ func NewPurityCase(g *Gen, id int) (*Case, []string, string) {
 				return typed(in.Go(nil))
 			}
 			return in.Go(nil)
+		}
+		if n.Kind == KStruct && in.Kind == "map" && g.R.P(15) {
+			// the record handed over as a Go struct: a field is visible under its key only when the key
+			// is an exported Go identifier; the model sees exactly those entries
+			vis := IVal{Kind: "map", node: in.node}
+			var fs []reflect.StructField
+			seen := map[string]bool{}
+			for _, kv := range in.M {
+				if k := kv.K; k != "" && k[0] >= 'A' && k[0] <= 'Z' && isIdent(k) && !seen[k] {
+					seen[k] = true
+					vis.M = append(vis.M, kv)
+					fs = append(fs, reflect.StructField{Name: k, Type: reflect.TypeOf((*any)(nil)).Elem()})
+				}
+			}
+			fs = append(fs, reflect.StructField{Name: "hidden", PkgPath: "zogverif/eng", Type: reflect.TypeOf("")})
+			st := reflect.StructOf(fs)
+			c.In = &vis
+			c.Shape += ":structinput"
+			mkData = func() any {
+				v := reflect.New(st).Elem()
+				for i, kv := range vis.M {
+					if x := kv.V.Go(nil); x != nil {
+						v.Field(i).Set(reflect.ValueOf(x))
+					}
+				}
+				return v.Interface()
+			}
 		}
 		if g.R.P(30) {
 			dest0 = g.DestValue(n, t, false)
